@@ -3,6 +3,7 @@ import Cirbo.Proofs.ConnSem
 import Cirbo.Proofs.ConnFull
 import Cirbo.Proofs.ConnRight
 import Cirbo.Proofs.BlockExtract
+import Cirbo.Proofs.ConnTotal
 import Cirbo.Model.Wrappers
 /-!
 # C10 — Circuit composition computes the documented functional composition
@@ -15,7 +16,9 @@ import Cirbo.Model.Wrappers
 -- OBLIGATION: c10_right_connection_computes_the_composition
 -- OBLIGATION: c10_block_extraction_left
 -- OBLIGATION: c10_block_extraction_right
--- PARTIAL: proved for every left connection (connect_circuit(right_connect=False), connect_left, extend_circuit, add_circuit): (1) only gates are added and every base gate keeps its value under every assignment; (2) the attached gates compute the attached circuit's function of the values at the connectors (a renaming of the attached circuit's labels — connectors to the base gates they were identified with, other gates to their prefixed copies — turns every valuation of the result into a valuation of the attached circuit). (3) the exact inputs/outputs lists of the result (kept base interface minus connectors, then the attached circuit's unconnected inputs/outputs, renamed, in order), the block recording the attached circuit (its inputs/outputs are the attached circuit's, renamed) and the survival of older blocks (c10_left_connection_interface_and_block). The right direction (connect_circuit(right_connect=True), connect_right, connect_inputs, extend_circuit(right_connect=True)) is proved in the same form (c10_right_connection_computes_the_composition): the fed base inputs become the connector gates (same label, the connector's type and renamed operands), every other base gate is kept, so every valuation of the result satisfies the base circuit's gate equations and — read through the renaming — the attached circuit's; with the exact inputs/outputs lists, the recorded block and the survival of older blocks. Re-extraction (c10_block_extraction_left/right): `get_block(name).into_circuit()` is modelled (Model/Wrappers.lean intoCircuit, compared with the code on every run) and proved to return, whenever it returns, a circuit with the attached circuit's renamed inputs and outputs in which every valuation is, through the renaming, a valuation of the attached circuit (the block lists exactly the images of the attached circuit's non-INPUT gates; for the right direction this needed the fix recorded in known_findings.json). That it does return is by correspondence. All of it is modelled one-to-one (Model/Mutate2.lean connStep/connFinish) and compared with the code field by field (both directions, wrappers, name/prefix options, repeated composition); the implementation's result is checked against the composed evaluation of the two operands on all assignments, against the documented interface, checkWFU and block extraction.
+-- OBLIGATION: c10_left_connection_returns
+-- OBLIGATION: c10_right_connection_returns
+-- PARTIAL: proved for every left connection (connect_circuit(right_connect=False), connect_left, extend_circuit, add_circuit): (1) only gates are added and every base gate keeps its value under every assignment; (2) the attached gates compute the attached circuit's function of the values at the connectors (a renaming of the attached circuit's labels — connectors to the base gates they were identified with, other gates to their prefixed copies — turns every valuation of the result into a valuation of the attached circuit). (3) the exact inputs/outputs lists of the result (kept base interface minus connectors, then the attached circuit's unconnected inputs/outputs, renamed, in order), the block recording the attached circuit (its inputs/outputs are the attached circuit's, renamed) and the survival of older blocks (c10_left_connection_interface_and_block). The right direction (connect_circuit(right_connect=True), connect_right, connect_inputs, extend_circuit(right_connect=True)) is proved in the same form (c10_right_connection_computes_the_composition): the fed base inputs become the connector gates (same label, the connector's type and renamed operands), every other base gate is kept, so every valuation of the result satisfies the base circuit's gate equations and — read through the renaming — the attached circuit's; with the exact inputs/outputs lists, the recorded block and the survival of older blocks. Re-extraction (c10_block_extraction_left/right): `get_block(name).into_circuit()` is modelled (Model/Wrappers.lean intoCircuit, compared with the code on every run) and proved to return, whenever it returns, a circuit with the attached circuit's renamed inputs and outputs in which every valuation is, through the renaming, a valuation of the attached circuit (the block lists exactly the images of the attached circuit's non-INPUT gates; for the right direction this needed the fix recorded in known_findings.json). That `into_circuit` does return is by correspondence. Total correctness of the connections themselves (c10_left_connection_returns / c10_right_connection_returns): on circuits satisfying the invariant, with connectors of the documented kind and fresh copy labels / block names (the only documented reasons for an error), `connect_circuit` returns. All of it is modelled one-to-one (Model/Mutate2.lean connStep/connFinish) and compared with the code field by field (both directions, wrappers, name/prefix options, repeated composition); the implementation's result is checked against the composed evaluation of the two operands on all assignments, against the documented interface, checkWFU and block extraction.
 -/
 namespace Cirbo
 open GateType Circuit
@@ -129,6 +132,38 @@ theorem c10_block_extraction_right {c other c' E : Circuit} {thisC otherC : List
       (∀ b v, IsValB E b v → IsValB other (v ∘ φ) (v ∘ φ)) ∧
       E.inputs = other.inputs.map φ ∧ E.outputs = other.outputs.map φ := extract_right hw hwo h hn hE
 
+/-- **a left connection returns** — the theorems above are not vacuous: if both circuits satisfy the
+invariant, the base has no block called `name`, `this_connectors` exist, `other_connectors` are distinct
+INPUT gates of the attached circuit (as many), the prefixed copies' labels are not taken in the base,
+and the attached circuit's (prefixed) block names are new and distinct, `connect_circuit` does not raise -/
+theorem c10_left_connection_returns {c other : Circuit} {thisC otherC : List Label} {name : Label} {addP : Bool}
+    (hw : WFS c) (hwo : WFS other)
+    (hblk : c.blocks.any (fun b => b.name == name) = false)
+    (hthis : ∀ l ∈ thisC, l ∈ c.labels)
+    (hoth : ∀ l ∈ otherC, (other.find? l).map (·.ty) = some INPUT)
+    (hndo : otherC.Nodup) (hlen : thisC.length = otherC.length)
+    (hfresh : ∀ g ∈ other.gates, g.label ∉ otherC → connPre name addP ++ g.label ∉ c.labels)
+    (hbn : ∀ b ∈ other.blocks, c.blocks.any (fun x => x.name == connPre name addP ++ b.name) = false)
+    (hbd : (other.blocks.map (·.name)).Nodup)
+    (hbo : ∀ b ∈ other.blocks, ∀ l ∈ b.outputs, l ∈ other.labels) :
+    ∃ c', c.connectCircuit other thisC otherC false name addP = .ok c' :=
+  connect_left_total hw hwo hblk hthis hoth hndo hlen hfresh hbn hbd hbo
+
+/-- **a right connection returns**: `this_connectors` distinct INPUT gates of the base, as many existing
+gates of the attached circuit, fresh copy labels and block names -/
+theorem c10_right_connection_returns {c other : Circuit} {thisC otherC : List Label} {name : Label} {addP : Bool}
+    (hw : WFS c) (hwo : WFS other)
+    (hblk : c.blocks.any (fun b => b.name == name) = false)
+    (hthisI : ∀ l ∈ thisC, (c.find? l).map (·.ty) = some INPUT)
+    (hothL : ∀ l ∈ otherC, l ∈ other.labels)
+    (hndt : thisC.Nodup) (hlen : thisC.length = otherC.length)
+    (hfresh : ∀ g ∈ other.gates, g.label ∉ otherC → connPre name addP ++ g.label ∉ c.labels)
+    (hbn : ∀ b ∈ other.blocks, c.blocks.any (fun x => x.name == connPre name addP ++ b.name) = false)
+    (hbd : (other.blocks.map (·.name)).Nodup)
+    (hbo : ∀ b ∈ other.blocks, ∀ l ∈ b.outputs, l ∈ other.labels) :
+    ∃ c', c.connectCircuit other thisC otherC true name addP = .ok c' :=
+  connect_right_total hw hwo hblk hthisI hothL hndt hlen hfresh hbn hbd hbo
+
 #print axioms c10_frame_add_gate
 #print axioms c10_left_connection_keeps_base_function
 #print axioms c10_left_connection_computes_the_composition
@@ -138,5 +173,7 @@ theorem c10_block_extraction_right {c other c' E : Circuit} {thisC otherC : List
 #print axioms c10_right_connection_computes_the_composition
 #print axioms c10_block_extraction_left
 #print axioms c10_block_extraction_right
+#print axioms c10_left_connection_returns
+#print axioms c10_right_connection_returns
 
 end Cirbo
